@@ -239,6 +239,14 @@ class Program:
             # conditional / guarded module-level code: index every arm; a
             # name bound in more than one arm becomes ambiguous (checked by
             # the resolver).
+            if isinstance(st, ast.For):
+                # the loop variables stay bound after the loop (to the
+                # last element): functions defined in the body that read
+                # them see that value when they are called later
+                for n_ in ast.walk(st.target):
+                    if isinstance(n_, ast.Name):
+                        scope.add(Binding('assign', st, ('forlast', st),
+                                          scope, n_.id))
             for fld in ('body', 'orelse', 'finalbody'):
                 self._index_scope(scope, getattr(st, fld, []) or [], mi)
             for h in getattr(st, 'handlers', []) or []:
